@@ -739,6 +739,10 @@ func runC19(t *testing.T, tier string) int {
 func c19Corpus() []c19Msg {
 	payloads := []string{
 		`{"a":1}`, ` { "a" : 1 } `, "[\n1,\t2 ]", `"<>&"`, `"  "`, `"😀"`, `"\"q\""`, `1e400`, `9223372036854775808`, `-0`, `[[[[[[[[[[1]]]]]]]]]]`, `{"a":1,"a":2}`, `"x"`, `true`, `null`, `0.1`, `{"":""}`,
+		// escape sequences inside strings: escaped HTML-sensitive characters, a LITERAL
+		// backslash followed by u003c (a JSON document quoted inside a string), a
+		// surrogate pair, an escaped solidus, line separators
+		`"\u003c\u0026\u003e"`, `"\\u003cp\\u003e"`, `{"body":"{\"h\":\"\\u003cp\\u003e \\u0026\"}"}`, `"\ud83d\ude00"`, `"\/"`, `"\\"`, `"\u2028\u2029"`, `"\u0001"`,
 	}
 	attrs := []map[string]string{nil, {"": "v"}, {"k": ""}, {"é": "ü", "k2": "v2"}, {"big": strings.Repeat("x", 1024)}}
 	keys := []string{"", "k", "é😀"}
